@@ -112,6 +112,11 @@ def _history(draw, ncallers, ntargets, lo, hi):
 
 @st.composite
 def strategy(draw, tier="quick"):
+    if draw(st.integers(0, 11)) == 0:
+        w = draw(st.integers(1, 3))
+        ks = st.one_of(st.none(), st.integers(0, (1 << w) - 1))
+        return {"comp": "ConnectValidated", "k1": draw(ks), "k2": draw(ks), "w": w,
+                "via": draw(st.sampled_from(["ctor", "create", "crossbar"]))}
     comp = draw(st.sampled_from(COMPONENTS + ["MethodFilter"]))  # MethodFilter has the largest configuration space
     cfg = {}
     ncallers, ntargets = 1, 1
@@ -248,6 +253,10 @@ def enumerate_cases(tier="quick"):
     for c in list(cases):
         if c["comp"] in CREATABLE:
             cases.append({**c, "via_create": True})
+    for via in ("ctor", "create", "crossbar"):
+        for k1 in (None, 0, 1, 3):
+            for k2 in (None, 0, 2):
+                cases.append({"comp": "ConnectValidated", "k1": k1, "k2": k2, "w": 2, "via": via})
     return cases
 
 
@@ -380,6 +389,97 @@ def _cond(kind, k):
     return hw, py
 
 
+# ------------------------------------------------------------------------------------------------ connected methods with validators
+
+
+def _run_connect_validated(case) -> Result:
+    """ConnectTrans / CrossbarConnectTrans (1x1) between two methods that are defined by the user circuit and may carry
+    `validate_arguments` (argument != k): the connecting transaction transfers exactly when both methods are ready and
+    each accepts what the other returns; then each receives the other's result.  All valuations of (ready1, ready2,
+    data1, data2) are applied."""
+    from amaranth import Elaboratable, Signal
+    from amaranth.sim import Simulator
+    from transactron import Method, TModule, def_method
+    from transactron.core import TransactronContextElaboratable
+    from transactron.lib import ConnectTrans, CrossbarConnectTrans
+    from transactron.utils.dependencies import DependencyContext, DependencyManager
+
+    k1, k2, via, w = case["k1"], case["k2"], case["via"], case["w"]
+    res = Result(labels=["ConnectValidated", f"ConnectValidated:{via}"])
+    if k1 is not None or k2 is not None:
+        res.labels.append("ConnectValidated:validator")
+
+    class Circuit(Elaboratable):
+        def __init__(self):
+            self.r = [Signal(name=f"r{i}") for i in range(2)]
+            self.d = [Signal(w, name=f"d{i}") for i in range(2)]
+            self.got = [Signal(w, name=f"got{i}") for i in range(2)]
+            self.meth = [Method(i=[("f0", w)], o=[("f0", w)], name=f"side{i}") for i in range(2)]
+
+        def elaborate(self, platform):
+            m = TModule()
+            for i, k in enumerate((k1, k2)):
+                kw = {} if k is None else {"validate_arguments": (lambda kk: (lambda f0: f0 != kk))(k)}
+
+                def define(i, kw):
+                    @def_method(m, self.meth[i], ready=self.r[i], **kw)
+                    def _(f0):
+                        m.d.comb += self.got[i].eq(f0)
+                        return {"f0": self.d[i]}
+
+                define(i, kw)
+
+            if via == "ctor":
+                ct = ConnectTrans([("f0", w)], [("f0", w)])
+                ct.method1.provide(self.meth[0])
+                ct.method2.provide(self.meth[1])
+            elif via == "create":
+                ct = ConnectTrans.create(self.meth[0], self.meth[1])
+            else:
+                ct = CrossbarConnectTrans.create(self.meth[0], self.meth[1])
+            m.submodules.ct = ct
+            return m
+
+    c = Circuit()
+    dm = DependencyManager()
+    with DependencyContext(dm):
+        sim = Simulator(TransactronContextElaboratable(c, dependency_manager=dm))
+    out = [None]
+    seen = dict(xfer=0, rejected=0)
+
+    async def tb(ctx):
+        for v in range(4 << (2 * w)):
+            r1, r2 = v & 1, (v >> 1) & 1
+            d1, d2 = (v >> 2) & ((1 << w) - 1), (v >> (2 + w)) & ((1 << w) - 1)
+            for sg, x in zip(c.r + c.d, (r1, r2, d1, d2)):
+                ctx.set(sg, x)
+            run1, run2 = ctx.get(c.meth[0].run), ctx.get(c.meth[1].run)
+            ok = bool(r1 and r2 and (k1 is None or d2 != k1) and (k2 is None or d1 != k2))
+            if r1 and r2 and not ok:
+                seen["rejected"] += 1
+            if (run1, run2) != (int(ok), int(ok)):
+                out[0] = (
+                    f"ConnectValidated({via}, validators arg!={k1} / arg!={k2}): ready=({r1},{r2}) results=({d1},{d2}): "
+                    f"methods run=({run1},{run2}), expected {int(ok)}"
+                )
+                return
+            if ok:
+                seen["xfer"] += 1
+                g1, g2 = ctx.get(c.got[0]), ctx.get(c.got[1])
+                if (g1, g2) != (d2, d1):
+                    out[0] = f"ConnectValidated({via}): methods received ({g1},{g2}), the other sides returned ({d2},{d1})"
+                    return
+
+    with DependencyContext(dm):
+        sim.add_testbench(tb)
+        sim.run()
+    res.stats["valuations"] = 4 << (2 * w)
+    if out[0]:
+        return res.fail(out[0])
+    res.nontrivial = seen["xfer"] > 0 and (seen["rejected"] > 0 or (k1 is None and k2 is None))
+    return res
+
+
 # ------------------------------------------------------------------------------------------------ run_case
 
 
@@ -395,6 +495,8 @@ def run_case(case) -> Result:
         MethodTryProduct,
     )
 
+    if case["comp"] == "ConnectValidated":
+        return _run_connect_validated(case)
     comp, cfg, nc, nt = case["comp"], case["cfg"], case["nc"], case["nt"]
     res = Result(labels=[comp])
     if case.get("all_valuations"):
@@ -586,7 +688,7 @@ def run_case(case) -> Result:
 
 def _vkey(case):
     """Region key of a failing case, derived from the configuration only."""
-    comp, cfg = case["comp"], case["cfg"]
+    comp, cfg = case["comp"], case.get("cfg", {})
     if comp == "MethodFilter":
         return f"MethodFilter:use_condition={int(cfg['use_condition'])},cond={cfg['cond'][0]}"
     return comp
